@@ -40,6 +40,11 @@ def ev(e, env):
     if isinstance(e, ast.Name):
         if e.id in env:
             return env[e.id]
+        g = env.get("__globals__", {}).get(e.id)
+        if g is not None:
+            # a module-level constant display: every use folds its own fresh value (aliasing between uses is not
+            # modelled here; in-place edits of shared objects are the ownership analysis' subject)
+            return ev(g, {"__globals__": env.get("__globals__", {}), "__functions__": env.get("__functions__", {})})
         raise Unsupported("free name %s" % e.id)
     if isinstance(e, ast.Compare):
         left = ev(e.left, env)
@@ -108,12 +113,12 @@ def ev(e, env):
             raise Unsupported("dict unpacking")
         return {ev(k, env): ev(v, env) for k, v in zip(e.keys, e.values)}
     if isinstance(e, ast.Call):
-        if isinstance(e.func, ast.Name) and e.func.id in ("len", "str", "int", "bool", "set", "tuple", "list", "sorted", "any", "all") \
+        if isinstance(e.func, ast.Name) and e.func.id in ("len", "str", "int", "bool", "set", "tuple", "list", "sorted", "any", "all", "dict") \
                 and not e.keywords:
             args = [ev(a, env) for a in e.args]
             try:
                 return {"len": len, "str": str, "int": int, "bool": bool, "set": frozenset, "tuple": tuple, "list": list,
-                        "sorted": sorted, "any": any, "all": all}[e.func.id](*args)
+                        "sorted": sorted, "any": any, "all": all, "dict": dict}[e.func.id](*args)
             except (TypeError, ValueError) as x:
                 raise Raised(type(x).__name__)
         if isinstance(e.func, ast.Attribute) and e.func.attr in _STR_METHODS and not e.keywords:
@@ -145,6 +150,7 @@ def ev(e, env):
                     actual[p] = ev(dflt[p], env)
             env2 = dict(actual)
             env2["__functions__"] = env.get("__functions__", {})
+            env2["__globals__"] = env.get("__globals__", {})
             env2["__depth__"] = env.get("__depth__", 0) + 1
             r = run_block(fn.body, env2)
             return r[1] if r is not None else None
@@ -210,14 +216,16 @@ def run_block(stmts, env):
     return None
 
 
-def call(func_node, *args, functions=None):
+def call(func_node, *args, functions=None, globals=None):
     """Fold `func_node(*args)`: ('return', value) / ('raise', exception name). Unsupported propagates.
-    `functions`: name -> FunctionDef of other pure functions the body may call."""
+    `functions`: name -> FunctionDef of other pure functions the body may call; `globals`: name -> value expression
+    of module-level constants."""
     params = [a.arg for a in func_node.args.posonlyargs + func_node.args.args]
     if len(params) != len(args):
         raise Unsupported("arity")
     env = dict(zip(params, args))
     env["__functions__"] = functions or {}
+    env["__globals__"] = globals or {}
     try:
         r = run_block(func_node.body, env)
     except Raised as x:
